@@ -187,6 +187,14 @@ func genC01Long(t *rapid.T) Hist {
 			op.Trig = "VOLUME_LIMIT"
 		case i%89 == 88:
 			op = Op{K: "recharge", S: 0, RG: rg, Amt: 1000}
+		case i == n/4:
+			op = Op{K: "aged", S: 0, RG: 1, Amt: 500} // ... the rating group's 500th credit-control request
+		case i == n/2:
+			op = Op{K: "aged", S: 0, RG: 1, Amt: 65530}
+		case i == n/2+1:
+			op = Op{K: "aged", S: 0, RG: 2, Amt: 1<<31 - 3}
+		case i == 3*n/4:
+			op = Op{K: "aged", S: 0, RG: 1, Amt: 1<<32 - 4}
 		}
 		hst.Ops = append(hst.Ops, op)
 	}
@@ -197,6 +205,7 @@ func TestC01Long(t *testing.T) {
 	h.Run(t, "C01", "long", genC01Long, func(hst Hist) *h.Verdict {
 		v := judgeC01(hst)
 		v.Label("history>=300-requests")
+		v.Label("request-counter-passes-65536")
 		v.NonTrivial = true
 		return v
 	})
